@@ -636,6 +636,7 @@ func vsBitswapWorld(s *verifsim.Sim) {
 						return
 					}
 					s.ViolateP("C10", "c10-fulfilled-but-empty", vsKindWord(rb.kind), "%s: Fetch returned nil but the block %s is not populated", ft.name, rb.kind)
+					s.ViolateP("C06", "c06-success-without-data", "bitswap."+vsKindWord(rb.kind), "%s: bitswap Fetch reported success for %s but handed back an empty container (neither data nor an error)", ft.name, rb.kind)
 					return
 				}
 				continue
@@ -648,6 +649,26 @@ func vsBitswapWorld(s *verifsim.Sim) {
 					s.ViolateP("C01", "c01-rejected-data-accepted", "bitswap."+vsKindWord(rb.kind), "%s: the requested bitswap block %s was left holding shares that are not the committed shares of that position: %v", ft.name, rb.kind, err)
 				}
 				s.ViolateP("C06", "c06-unverified-data-returned", "bitswap."+vsKindWord(rb.kind), "%s: bitswap block %s holds data that does not verify against the header: %v", ft.name, rb.kind, err)
+				return
+			}
+		}
+	}
+	// what a fetch keeps in the blockstore it was given (WithStore) is verified data of that identifier
+	if wiring == 1 {
+		for _, rb := range pool {
+			blk, err := bstore.Get(ctx, rb.cid)
+			if err != nil {
+				continue
+			}
+			if ref := honestBytes(rb.cid, serving); ref != nil && !bytes.Equal(blk.RawData(), ref) {
+				vsSlowMu.Lock()
+				stale := vsStale[rb.cid]
+				vsSlowMu.Unlock()
+				if stale {
+					s.ViolateP("C10", "c10-unverified-block-stored", "delivery verified against the entry of a fetch that had returned", "the blockstore given to Fetch holds, under the identifier of %s, bytes that are not the honest block of that identifier: a hostile copy was inside the hasher, checked by the (already populated, hence all-accepting) verifier of a fetch that had returned, and was handed to a later fetch of the identifier, which stored it", rb.kind)
+					return
+				}
+				s.ViolateP("C10", "c10-unverified-block-stored", vsKindWord(rb.kind), "the blockstore given to Fetch holds, under the identifier of %s, bytes that are not the honest block of that identifier (they never verified for the fetch that stored them)", rb.kind)
 				return
 			}
 		}
